@@ -21,7 +21,7 @@ def generate(seed, tier):
     for i in range(n_cases):
         rng = derived_rng(seed, 'C10', i)
         while True:
-            ds = gen.gen_dataset(rng, max_dims=3, max_size=4)
+            ds = gen.gen_dataset(rng, max_dims=3, max_size=4, long_prob=0.12)
             if i % 7 == 6 or i % 7 == 3:
                 side = rng.choice(['pos', 'spec'])
                 ds[side] = {'sizes': [1], 'rate': [0], 'labels': [ds[side]['labels'][0]], 'units': ['u'], 'values': [[2]]}
